@@ -48,10 +48,13 @@ Names(chars, ann, alwaysLong) ==
 
 Letters(shorts) == [i \in DOMAIN shorts |-> "?"]      \* not used by the families of this property
 
+\* an annotation that older type definitions may lack
+Ann(f, k, dflt) == IF k \in DOMAIN f.ann THEN f.ann[k] ELSE dflt
 Leaf(id, kind, arity, vt, nm, f, metavar) ==
   [id |-> id, kind |-> kind, arity |-> arity, vt |-> vt, shorts |-> nm.shorts, longs |-> nm.longs,
-   letters |-> Letters(nm.shorts), env |-> "", adj |-> FALSE, guard |-> FALSE, hidden |-> f.ann.hide,
-   help |-> f.help, catch |-> FALSE, lchars |-> <<>>, completer |-> <<>>, metavar |-> metavar]
+   letters |-> Letters(nm.shorts), env |-> Ann(f, "env", ""), adj |-> FALSE, guard |-> FALSE, hidden |-> f.ann.hide,
+   help |-> f.help, catch |-> FALSE, lchars |-> <<>>, completer |-> <<>>, metavar |-> metavar,
+   hide_usage |-> Ann(f, "hide_usage", FALSE), custom_usage |-> Ann(f, "custom_usage", "")]
 
 \* a named field
 NamedField(f, id) ==
